@@ -53,7 +53,10 @@ Splits == { [hasMeta |-> FALSE, target |-> 1, notes |-> -1, min |-> 0],
             [hasMeta |-> TRUE, target |-> 3, notes |-> 1, min |-> 30] }
 Regimes == { [nu63 |-> FALSE, ov3 |-> FALSE, grid |-> TRUE], [nu63 |-> TRUE, ov3 |-> TRUE, grid |-> TRUE],
              [nu63 |-> TRUE, ov3 |-> TRUE, grid |-> FALSE] }
-Ephs == { [k |-> "none", v |-> 0], [k |-> "in", v |-> 30], [k |-> "out", v |-> 30] }
+\* f: built with `transparent-inputs` (the ephemeral output is listed among the change values)
+\* (an ephemeral input with the feature is covered by tpolicy = "allowed", which implies the feature)
+Ephs == { [k |-> "none", v |-> 0, f |-> FALSE], [k |-> "in", v |-> 30, f |-> FALSE], [k |-> "out", v |-> 30, f |-> FALSE],
+          [k |-> "out", v |-> 30, f |-> TRUE] }
 TPols == {"shield", "allowed"}
 
 Rep(n, v) == [j \in 1..n |-> v]
@@ -72,11 +75,11 @@ MkReq(pat, iv, act, thr, sp, memo, hr, ep, tp, fb) ==
      sin |-> Tuned(pat, 3, iv), sout |-> Rep(pat[4], OutV),
      oin |-> Tuned(pat, 5, iv), oout |-> Rep(pat[6], OutV),
      iin |-> Tuned(pat, 7, iv), iout |-> Rep(pat[8], CanonV),
-     tpolicy |-> tp]
+     tpolicy |-> tp, tfeat |-> ep.f \/ tp = "allowed"]
 
 NoReq == MkReq(<< 1, 0, 0, 0, 0, 0, 0, 0 >>, 0, "reject", [has |-> FALSE, v |-> 0],
                [hasMeta |-> FALSE, target |-> 1, notes |-> -1, min |-> 0], FALSE,
-               [nu63 |-> FALSE, ov3 |-> FALSE, grid |-> TRUE], [k |-> "none", v |-> 0], "shield", "sapling")
+               [nu63 |-> FALSE, ov3 |-> FALSE, grid |-> TRUE], [k |-> "none", v |-> 0, f |-> FALSE], "shield", "sapling")
 
 (* ------------------------------------------------------------------------------------------ *)
 Out(k) == [k |-> k, change |-> << >>, fee |-> 0, hasDummy |-> FALSE, dummy |-> << 0, 0, 0 >>,
@@ -93,8 +96,12 @@ WitnessOf(q0, p) ==
         need == out + fee
         chg  == in - need
         memo == d.memo
-        bal(chs, f, man) == [Out("balance") EXCEPT !.change = chs, !.fee = f, !.hasDummy = TRUE,
-                                                   !.dummy = N!Dummies(sh, man)]
+        \* with `transparent-inputs` the ephemeral output is appended to the change values (common.rs:827) and the
+        \* recorded padding is computed from the list that includes it
+        ephs == IF q0.tfeat /\ q0.ephK = "out"
+                THEN << [pool |-> "transparent", v |-> q0.ephV, memo |-> FALSE, eph |-> TRUE] >> ELSE << >>
+        bal(chs, f, man) == [Out("balance") EXCEPT !.change = chs \o ephs, !.fee = f, !.hasDummy = TRUE,
+                                                   !.dummy = N!Dummies(sh, [man EXCEPT !.e = Len(ephs)])]
         notes == [j \in 1..k |-> [pool |-> p, v |-> IF j = 1 THEN (chg \div k) + (chg % k) ELSE chg \div k,
                                   memo |-> memo, eph |-> FALSE]]
         simple == IF p = "transparent" /\ chg = 0 THEN bal(<< >>, fee, N!NoChange) ELSE bal(notes, fee, N!InPool(p, k))
@@ -118,11 +125,12 @@ Salt(r, iv, memo, hr, ep) ==
     + 11 * Len(r.oout) + 13 * Len(r.iin) + (IF r.act = "reject" THEN 0 ELSE IF r.act = "allow" THEN 17 ELSE 19)
     + r.thr + r.minSplit + r.notes + 1 + (IF r.hasThr THEN 43 ELSE 0) + (IF memo THEN 23 ELSE 0)
     + (IF hr.nu63 THEN 29 ELSE 0) + (IF hr.grid THEN 0 ELSE 31) + (IF ep.k = "in" THEN 37 ELSE IF ep.k = "out" THEN 41 ELSE 0)
+    + (IF ep.f THEN 47 ELSE 0)
 Init == /\ q = NoReq /\ done = 0 /\ ws = << >>
 Pick1 == /\ done = 0 /\ done' = 1 /\ ws' = ws
          /\ \E pat \in Patterns, act \in Acts, thr \in Thrs, sp \in Splits :
               q' = MkReq(pat, 0, act, thr, sp, FALSE, [nu63 |-> FALSE, ov3 |-> FALSE, grid |-> TRUE],
-                         [k |-> "none", v |-> 0], "shield", "sapling")
+                         [k |-> "none", v |-> 0, f |-> FALSE], "shield", "sapling")
 Pick2 == /\ done = 1 /\ done' = 2
          /\ \E iv \in InVals, memo \in BOOLEAN, hr \in Regimes, ep \in Ephs, tp \in TPols, fb \in {"sapling", "orchard"} :
               /\ (fb = "orchard" => N!NoShieldedIO(q))      \* the fallback pool only matters for transparent flows
@@ -156,13 +164,23 @@ Sensitive ==
             LET w == ws[p]
             IN  /\ w.k = "balance" =>
                      \* the fee is not negotiable: a marginal fee moved from the fee into the change, or back
-                     /\ (Len(w.change) > 0 /\ w.fee >= M =>
+                     /\ (Len(w.change) > 0 /\ ~w.change[1].eph /\ w.fee >= M =>
                             ~Ok(d, [w EXCEPT !.fee = @ - M, !.change[1].v = @ + M]))
-                     /\ (Len(w.change) > 0 /\ w.change[1].v > M =>
+                     /\ (Len(w.change) > 0 /\ ~w.change[1].eph /\ w.change[1].v > M =>
                             ~Ok(d, [w EXCEPT !.fee = @ + M, !.change[1].v = @ - M]))
+                     \* the ephemeral output is listed exactly once with exactly the requested value
+                     /\ (\E j \in 1..Len(w.change) : w.change[j].eph) =>
+                            LET j == CHOOSE j \in 1..Len(w.change) : w.change[j].eph
+                            IN  /\ ~Ok(d, [w EXCEPT !.change = SubSeq(w.change, 1, j - 1)])
+                                /\ ~Ok(d, [w EXCEPT !.change = @ \o << w.change[j] >>])
+                                /\ ~Ok(d, [w EXCEPT !.change[j].v = @ + 1])
+                                /\ ~Ok(d, [w EXCEPT !.change[j].eph = FALSE])
                      \* value is conserved exactly
                      /\ ~Ok(d, [w EXCEPT !.fee = @ + 1])
                      /\ (Len(w.change) > 0 => ~Ok(d, [w EXCEPT !.change[1].v = @ + 1]))
+                     \* a zero-valued transparent change output is not created
+                     /\ (d.mayT /\ w.change = << >> =>
+                            ~Ok(d, [w EXCEPT !.change = << [pool |-> "transparent", v |-> 0, memo |-> FALSE, eph |-> FALSE] >>]))
                      \* the remainder of a split is not lost
                      /\ (Len(w.change) > 1 /\ w.change[1].v > w.change[2].v =>
                             ~Ok(d, [w EXCEPT !.change[1].v = w.change[2].v]))
@@ -221,4 +239,8 @@ Promises ==
                   /\ w.fee >= Rule.m * Rule.g
                   /\ w.fee >= f
                   /\ (w.fee > f => q.act = "addfee" \/ d.mayT)
+                  \* value is conserved over everything listed: inputs = requested outputs + listed change values + fee
+                  /\ N!NSum(q.tinV) + N!EphIn(q) + N!NSum(q.sin) + N!NSum(q.oin) + N!NSum(q.iin)
+                       = N!NSum(q.toutV) + N!NSum(q.sout) + N!NSum(q.oout) + N!NSum(q.iout)
+                         + N!NSum(N!Values(w.change)) + w.fee + (IF q.tfeat THEN 0 ELSE N!EphOut(q))
 ===========================================================================================
